@@ -13,7 +13,8 @@
    * [parse_num]/[parse_hex] accept exactly non-empty ASCII digit / hex-digit strings; Python's
      float()/int(,16) additionally accept signs, surrounding blanks, '_', exponents, "0x",
      "nan"/"inf" — never produced by the serialisers.
-   * mtimes are non-negative integers (stat_mtime_long), md5 values are < 2^128.
+   * mtimes are non-negative, given in milliseconds (fractional stamps; the harness uses
+     multiples of 1/8 s, exact in binary floating point); md5 values are < 2^128.
    * the temporary file of a store is assumed not to pre-exist (own pid).
    * [keys] describes the listing WITH fixes/C27-skip-update-temp.patch applied
      ([keys_gen false] is the behaviour of the pinned tree). *)
@@ -228,7 +229,10 @@ Inductive layout := Flat | Md5.
 
 (* what the serialisers read of a chksum object (LazilyHashedPath): eclass files are
    e_dir/e_base; the ebuild's object only contributes mtime / md5 *)
-Record edata := { e_path : str; e_mtime : N; e_md5 : N }.
+Record edata := { e_path : str; e_stamp : N; e_md5 : N }.
+(* e_stamp is the file's mtime in MILLISECONDS (os.stat().st_mtime is a float with a fractional
+   part); what the serialisers write is math.floor(data.mtime): whole seconds, truncated *)
+Definition e_mtime (d : edata) : N := e_stamp d / 1000.
 
 (* the mapping handed to cache[cpv] = values:  plain string keys, the eclass map under
    "_eclasses_" (None: key absent), the ebuild's chksum object under "_chf_" *)
@@ -441,7 +445,7 @@ Definition enc_result (r : result) : val :=
   | inr Corrupt => VErr (lit "CacheCorruption")
   end.
 
-Definition mk_e (p : str) (m h : N) : edata := {| e_path := p; e_mtime := m; e_md5 := h |}.
+Definition mk_e (p : str) (ms h : N) : edata := {| e_path := p; e_stamp := ms; e_md5 := h |}.
 Definition mk_entry (k : list (str * str)) (e : option (list (str * edata))) (c : option edata) : entry :=
   {| kvs := k; ecl := e; chf := c |}.
 
